@@ -1,39 +1,169 @@
 """Loopback HTTP world (DESIGN.md section 4, C16/C17): the real Binance / Bitstamp clients talk to an aiohttp.web server on
 127.0.0.1 through a resolver that maps the production host names to the loopback port, so that the Host header and the
 signed host are the production ones. The server records the raw request line, headers and body; verification uses those
-bytes only."""
+bytes only.
+
+Time seam: `TimeSeam` installs one virtual clock (mc.vtime.VirtualTime, a full proxy of the `time` module whose
+time / time_ns / monotonic / perf_counter all read the same integer-nanosecond clock) as the attribute `time` of EVERY loaded
+basana module that imported the time module, whichever module the library reads the clock in. With `virtual_sleep=True` it also
+makes every sleep of the library advance that clock instead of waiting: `asyncio` attributes of the basana modules become a
+ModuleProxy with a virtual `sleep`, and `asyncio.sleep` itself is replaced, for callers that live in a basana module only, so
+that TokenBucketLimiter.wait() or a helper module sleeping on behalf of a client is virtual too. Nothing is looked up as
+`module.attribute` without a default: removing an unused import from the library cannot crash the harness.
+
+Server behaviours: every request is answered by `route(req)` (default: one fixed JSON document); `behaviour(index, req)` may
+return "drop": the server reads the whole request, records it, and closes the connection without answering (what a load
+balancer does to a keep-alive connection) - the client sees aiohttp.ServerDisconnectedError.
+"""
+import asyncio as _real_asyncio
 import hashlib
 import hmac
 import re
-import types
+import sys
+import time as _real_time
 
 import aiohttp
 import aiohttp.abc
 from aiohttp import web
 
+from mc.vtime import ModuleProxy, VirtualTime
+
 KEY, SECRET = "the-key", "the-secret"
 NOW = 1700000000.123
+NOW_NS = 1700000000123000000
+TS_TOLERANCE_MS = 1   # round() vs truncation of the same clock reading are both "current"
+
+
+class Clock:
+    """Virtual wall clock with integer nanoseconds (so that time() and time_ns() agree exactly)."""
+
+    def __init__(self, ns=NOW_NS):
+        self.ns = ns
+
+    @property
+    def now(self):
+        return self.ns / 1e9
+
+    def advance(self, seconds):
+        if seconds and seconds > 0:
+            self.ns += int(round(seconds * 1e9))
+
+
+class _ExactVirtualTime(VirtualTime):
+    def __init__(self, clock):
+        super().__init__(lambda: clock.now, clock.advance)
+        self._clock = clock
+
+    def time_ns(self):
+        return self._clock.ns
+
+    def monotonic_ns(self):
+        return self._clock.ns
+
+    def perf_counter_ns(self):
+        return self._clock.ns
+
+
+_REAL_SLEEP = _real_asyncio.sleep
+
+
+def _basana_modules():
+    return [m for n, m in list(sys.modules.items()) if m is not None and (n == "basana" or n.startswith("basana."))]
+
+
+class TimeSeam:
+    """Installs a virtual clock (and optionally virtual sleeps) into the library; restore() undoes everything."""
+
+    def __init__(self, clock=None, virtual_sleep=False):
+        # the modules that read the clock / sleep today; everything else that is loaded is covered generically below
+        import basana.core.token_bucket  # noqa: F401
+        import basana.external.binance.client  # noqa: F401
+        import basana.external.binance.exchange  # noqa: F401
+        import basana.external.bitstamp.client  # noqa: F401
+        import basana.external.bitstamp.exchange  # noqa: F401
+        self.clock = clock or Clock()
+        self.vtime = _ExactVirtualTime(self.clock)
+        self.slept = 0.0          # virtual seconds slept by the library
+        self._saved = []
+        self._saved_global_sleep = None
+        for mod in _basana_modules():
+            cur = getattr(mod, "time", None)
+            if cur is _real_time or isinstance(cur, VirtualTime):
+                self._saved.append((mod, "time", cur))
+                setattr(mod, "time", self.vtime)
+        if virtual_sleep:
+            proxy = ModuleProxy(_real_asyncio, sleep=self._virtual_sleep)
+            for mod in _basana_modules():
+                cur = getattr(mod, "asyncio", None)
+                if cur is _real_asyncio or isinstance(cur, ModuleProxy):
+                    self._saved.append((mod, "asyncio", cur))
+                    setattr(mod, "asyncio", proxy)
+            self._saved_global_sleep = _real_asyncio.sleep
+            _real_asyncio.sleep = self._dispatching_sleep
+
+    async def _virtual_sleep(self, delay, result=None):
+        if delay and delay > 0:
+            self.clock.advance(delay)
+            self.slept += delay
+        await _REAL_SLEEP(0)
+        return result
+
+    def _dispatching_sleep(self, delay, result=None):
+        # asyncio.sleep for the whole process while the seam is installed: virtual for the library, real for everything else
+        # (aiohttp's own sleep(0) / server housekeeping must not move the clock)
+        caller = sys._getframe(1).f_globals.get("__name__", "")
+        if caller == "basana" or caller.startswith("basana."):
+            return self._virtual_sleep(delay, result)
+        return _REAL_SLEEP(delay, result)
+
+    def restore(self):
+        for mod, name, cur in reversed(self._saved):
+            setattr(mod, name, cur)
+        self._saved = []
+        if self._saved_global_sleep is not None:
+            _real_asyncio.sleep = self._saved_global_sleep
+            self._saved_global_sleep = None
+
+
+_FROZEN = None
 
 
 def patch_time():
-    import basana.external.binance.client.base as bbase
-    import basana.external.bitstamp.helpers as shelp
-    fake = types.SimpleNamespace(time=lambda: NOW)
-    bbase.time = fake
-    shelp.time = fake
+    """Frozen clock at NOW in every basana module (idempotent; stays installed for the life of the worker process)."""
+    global _FROZEN
+    if _FROZEN is not None:
+        _FROZEN.restore()
+    _FROZEN = TimeSeam(Clock(NOW_NS))
+    return _FROZEN
 
 
 class Server:
     def __init__(self):
         self.reqs = []
         self.response = {"ok": True, "listenKey": "k", "orderId": 1, "token": "t", "user_id": 1}
-        self.clock = None
+        self.clock = None        # callable -> virtual seconds, stamped on every received request
+        self.route = None        # callable(req) -> (http status, JSON document) or None for the default answer
+        self.behaviour = None    # callable(arrival index, req) -> "ok" | "drop"
+        self.received = 0
 
     async def handler(self, request):
         body = await request.read()
-        self.reqs.append(dict(method=request.method, raw_path=request.raw_path, arrived=self.clock() if self.clock else None,
-                              headers={k: v for k, v in request.headers.items()}, body=body,
-                              host=request.headers.get("Host")))
+        req = dict(method=request.method, raw_path=request.raw_path, arrived=self.clock() if self.clock else None,
+                   headers={k: v for k, v in request.headers.items()}, body=body, host=request.headers.get("Host"),
+                   index=self.received, dropped=False)
+        self.received += 1
+        self.reqs.append(req)
+        if self.behaviour is not None and self.behaviour(req["index"], req) == "drop":
+            # the whole request was received; the connection goes away without a single byte of response
+            req["dropped"] = True
+            if request.transport is not None:
+                request.transport.close()
+            return web.Response()
+        if self.route is not None:
+            ans = self.route(req)
+            if ans is not None:
+                status, doc = ans
+                return web.json_response(doc, status=status)
         return web.json_response(self.response)
 
     async def start(self):
@@ -63,6 +193,11 @@ BINANCE_URL = {"api": {"http": {"base_url": "http://api.binance.com/"}}}
 BITSTAMP_URL = {"api": {"http": {"base_url": "http://www.bitstamp.net/"}}}
 
 
+def _current(ts_text, now):
+    exp = int(round((NOW if now is None else now) * 1000))
+    return ts_text is not None and re.fullmatch(r"\d+", ts_text) and abs(int(ts_text) - exp) <= TS_TOLERANCE_MS, exp
+
+
 def verify_binance(req, signed=True, now=None):
     """Like the exchange: HMAC-SHA256(secret, raw query without '&signature=...' || raw body) == transmitted signature."""
     path, _, query = req["raw_path"].partition("?")
@@ -79,8 +214,9 @@ def verify_binance(req, signed=True, now=None):
     if exp != m.group(2):
         return f"signature does not verify over the transmitted bytes {payload!r}"
     ts = re.search(r"(^|&)timestamp=(\d+)", signed_part)
-    if not ts or int(ts.group(2)) != int(round((NOW if now is None else now) * 1000)):
-        return f"timestamp {ts and ts.group(2)} is not the current time {int(round((NOW if now is None else now) * 1000))}"
+    ok, exp_ms = _current(ts and ts.group(2), now)
+    if not ok:
+        return f"timestamp {ts and ts.group(2)} is not the current time {exp_ms}"
     return None
 
 
@@ -95,8 +231,9 @@ def verify_bitstamp(req, now=None):
         return "X-Auth does not carry the key"
     if exp != h.get("X-Auth-Signature"):
         return f"signature does not verify over the transmitted bytes {msg!r}"
-    if h.get("X-Auth-Timestamp") != str(int(round((NOW if now is None else now) * 1000))):
-        return f"timestamp {h.get('X-Auth-Timestamp')} is not the current time {int(round((NOW if now is None else now) * 1000))}"
+    ok, exp_ms = _current(h.get("X-Auth-Timestamp"), now)
+    if not ok:
+        return f"timestamp {h.get('X-Auth-Timestamp')} is not the current time {exp_ms}"
     if h.get("X-Auth-Version") != "v2":
         return "version"
     if not req["body"] and "Content-Type" in h:
